@@ -261,6 +261,8 @@ def family_read(job):
     if h is None:
         return None, {'o': ('C', 'parameter not held by any active module'), 'fin': None, 'prov': False}
     q = h.ParameterDict[name]
+    if isinstance(q.value, float) and math.isnan(q.value):
+        return type(h).__name__, {'o': ('A', None), 'fin': None, 'prov': bool(q.Provided), 'nan': True}
     fin = stored_value(name, q, s)
     return type(h).__name__, {'o': ('A', fin), 'fin': fin, 'prov': bool(q.Provided)}
 
@@ -432,3 +434,114 @@ def family_read_list(job):
         sys.argv = stash[1]
         with contextlib.suppress(OSError):
             path.unlink()
+
+
+# ---------------------------------------------------------------------------------------------------------
+# the TEXT of a value (Model/TokenReader.v): canonical integers, other number notations, junk, blanks, nan / inf, booleans
+# ---------------------------------------------------------------------------------------------------------
+
+def tok_of(s):
+    """text -> Coq term of type TokenReader.tok"""
+    if ' ' in s:
+        return 'TBlank'
+    if re.fullmatch(r'-?\d+', s) and str(int(s)) == s:
+        return f'(TCanon {qconv.zlit(int(s))})'
+    try:
+        x = float(s)
+    except ValueError:
+        return 'TText'
+    if math.isnan(x):
+        return 'TNaN'
+    if math.isinf(x):
+        return 'TPInf' if x > 0 else 'TNInf'
+    return f'(TNum {qconv.q(Fraction(x))})'
+
+
+def _tout(exc, name, q, old):
+    """-> (kind, payload): A value | U | R name | E text | N"""
+    if exc is not None:
+        msg = str(exc)
+        return ('R', name) if name in msg else ('E', f'{type(exc).__name__}: {msg}'[:140])
+    val = q.value
+    if isinstance(val, float) and math.isnan(val):
+        return ('N',)
+    if type(val) is type(old) and val == old and not hasattr(old, 'int_value'):
+        return ('U',)
+    fin = used_value(val)
+    return ('A', fin) if fin is not None else ('E', f'stored {val!r}')
+
+
+def observe_tok_reader(p, name, s, model):
+    from geophires_x.Parameter import ParameterEntry, ReadParameter
+    q = copy.deepcopy(p)
+    old, exc = q.value, None
+    try:
+        with contextlib.redirect_stdout(io.StringIO()):
+            ReadParameter(ParameterEntry(Name=name, sValue=s, raw_entry=f'{name}, {s}'), q, model)
+    except Exception as e:  # noqa
+        exc = e
+    return _tout(exc, name, q, old)
+
+
+def observe_tok_module(pkg, cls, model, name, s):
+    import inspect
+    import os
+    import sys
+    from pathlib import Path
+    from geophires_x.Parameter import ParameterEntry
+    o = paramtable.instantiate(pkg, cls, model)
+    old, exc = copy.deepcopy(o.ParameterDict[name].value), None
+    stash = (os.getcwd(), sys.argv)
+    try:
+        with contextlib.redirect_stdout(io.StringIO()):
+            entry = {name: ParameterEntry(Name=name, sValue=s, raw_entry=f'{name}, {s}')}
+            if pkg == 'hip_ra_x':
+                sys.argv = ['']
+                o.InputParameters = entry
+                o.read_parameters()
+            else:
+                model.InputParameters = entry
+                if 'default_output_path' in inspect.signature(o.read_parameters).parameters:
+                    o.read_parameters(model, default_output_path=Path(os.environ.get('TMPDIR', '/var/tmp')))
+                else:
+                    o.read_parameters(model)
+    except Exception as e:  # noqa
+        exc = e
+    finally:
+        os.chdir(stash[0])
+        sys.argv = stash[1]
+        if pkg != 'hip_ra_x':
+            model.InputParameters = {}
+    return _tout(exc, name, o.ParameterDict[name], old)
+
+
+def family_read_tok(job):
+    """Worker: like family_read, outcome in the token vocabulary -> (holder class, (kind, payload))"""
+    cls, obs = family_read(job)
+    o = obs['o']
+    if o[0] == 'C':
+        name = job[2]
+        return cls, (('R', name) if name in o[1] else ('E', o[1]))
+    if o[0] == 'R':
+        return cls, ('R', o[1])
+    return cls, ('A', obs['fin']) if obs['fin'] is not None else ('N',) if obs.get('nan') else ('E', 'stored a non-number')
+
+
+def tout_lit(o):
+    return {'A': lambda: f'(TAccept {qconv.q(o[1])})', 'U': lambda: 'TUnchanged', 'R': lambda: f'(TRejectNamed {paramtable.cs(o[1])})',
+            'E': lambda: 'TErrAnon', 'N': lambda: 'TAcceptNaN'}[o[0]]()
+
+
+OUTKIND = {'A': 'accepted', 'U': 'unchanged', 'R': 'named', 'E': 'anon', 'N': 'nan-stored'}
+
+
+def observe_bool(p, name, s, model):
+    """-> stored bool after the real ReadParameter (None: it raised)"""
+    from geophires_x.Parameter import ParameterEntry, ReadParameter
+    q = copy.deepcopy(p)
+    try:
+        with contextlib.redirect_stdout(io.StringIO()):
+            ReadParameter(ParameterEntry(Name=name, sValue=s, raw_entry=f'{name}, {s}'), q, model)
+    except Exception:  # noqa
+        return None
+    return q.value if isinstance(q.value, bool) else None
